@@ -29,7 +29,7 @@ use cascette_formats::patch_archive::{PatchArchive, PatchArchiveBuilder};
 use cascette_formats::patch_index::{PatchIndex, PatchIndexBuilder, PatchIndexEntry};
 use cascette_formats::root::{ContentFlags, LocaleFlags, RootBuilder, RootFile, RootVersion};
 use cascette_formats::size::{SizeManifest, SizeManifestBuilder};
-use cascette_formats::tvfs::{TvfsBuilder, TvfsFile};
+use cascette_formats::tvfs::{ContainerFileTable, TvfsBuilder, TvfsFile, TvfsHeader, VfsTable};
 use cascette_formats::zbsdiff::{ZbsDiff, ZbsdiffBuilder};
 use std::io::Cursor;
 use std::panic::AssertUnwindSafe;
@@ -752,6 +752,7 @@ impl Ctx {
             "dl" => "download",
             "size" => "size",
             "zbs" => "zbsdiff",
+            "pidx" => "pindex",
             _ => return "bad-op".into(),
         };
         let Some(out) = self.oracle(mfmt, input, req.to_string(), false) else { return "bad-op".into() };
@@ -760,6 +761,21 @@ impl Ctx {
             "inst" => InstallManifest::parse(input).ok().map(|m| format!("v={} t={} e={}", m.header.version, m.tags.len(), m.entries.len())),
             "dl" => DownloadManifest::parse(input).ok().map(|m| format!("v={} e={} t={}", m.header.version(), m.entries.len(), m.tags.len())),
             "size" => SizeManifest::parse(input).ok().map(|m| format!("v={} e={} t={} total={}", m.header.version(), m.entries.len(), m.tags.len(), m.header.total_size())),
+            "pidx" => <PatchIndex as CascFormat>::parse(input).ok().map(|p| {
+                let h = &p.header;
+                let bt: Vec<String> = h.blocks.iter().map(|b| format!("{}:{}", b.block_type, b.block_size)).collect();
+                format!(
+                    "hs={} ds={} xk={} kd={} xd={} bt=[{}] ks={} e={}",
+                    h.header_size,
+                    h.data_size,
+                    h.key_size,
+                    hex(&h.key_data[..(h.key_size as usize).min(16)]),
+                    h.extra_data.len(),
+                    bt.join(","),
+                    p.key_size,
+                    p.entries.len()
+                )
+            }),
             _ => ZbsDiff::parse(input).ok().map(|z| format!("c={} d={} o={} x={}", z.header.control_size, z.header.diff_size, z.header.output_size, z.extra_data.len())),
         };
         match (&out.stage, summary) {
@@ -787,6 +803,23 @@ impl Ctx {
                 }
                 None => self.s.line(line, "bad-op"),
             },
+            ["tv", n, h] => match (n.parse::<u32>().ok(), unhex(h)) {
+                (Some(cft), Some(b)) => {
+                    let r = tv_resp(cft, &b);
+                    let key = format!("tv:{cft}:{:016x}", fnv64(&b));
+                    self.s.case(if r.starts_with("ok") && b.len() > 1 { Some(&key) } else { None });
+                    self.s.line(line, &r);
+                }
+                _ => self.s.line(line, "bad-op"),
+            },
+            ["tc", f, h] => match (f.parse::<u32>().ok().filter(|f| *f < 2), unhex(h)) {
+                (Some(fl), Some(b)) => {
+                    let r = tc_resp(fl, &b);
+                    self.s.case(None);
+                    self.s.line(line, &r);
+                }
+                _ => self.s.line(line, "bad-op"),
+            },
             ["o", fmt, h] => match unhex(h) {
                 Some(b) if FORMATS.contains(fmt) => {
                     if let Some(out) = self.oracle(fmt, &b, line.to_string(), false) {
@@ -811,6 +844,36 @@ impl Ctx {
             }
             _ => self.s.line(line, "bad-op"),
         }
+    }
+}
+
+/// `VfsTable::parse` under a header whose container-table size is `cft` (the width of every
+/// cft-offset field is a function of that size)
+fn tv_resp(cft: u32, data: &[u8]) -> String {
+    let mut h = TvfsHeader::new(0);
+    h.cft_table_size = cft;
+    match catch(AssertUnwindSafe(|| VfsTable::parse(data, &h))) {
+        Err(_) => "panic".into(),
+        Ok(Err(_)) => "err".into(),
+        Ok(Ok(t)) => {
+            let es: Vec<String> = t
+                .entries
+                .iter()
+                .map(|e| format!("{}:{}", e.offset, e.spans.iter().map(|s| format!("{}/{}/{}", s.file_offset, s.span_length, s.cft_offset)).collect::<Vec<_>>().join(",")))
+                .collect();
+            format!("ok e={} {}", es.len(), es.join(";"))
+        }
+    }
+}
+
+/// `ContainerFileTable::parse` then `build`: entry count and rebuilt size (slack is dropped)
+fn tc_resp(flags: u32, data: &[u8]) -> String {
+    let mut h = TvfsHeader::new(flags);
+    h.cft_table_size = data.len() as u32;
+    match catch(AssertUnwindSafe(|| ContainerFileTable::parse(data, &h).map(|t| (t.entries.len(), t.build(&h).len())))) {
+        Err(_) => "panic".into(),
+        Ok(Err(_)) => "err".into(),
+        Ok(Ok((n, l))) => format!("ok n={n} rebuilt={l}"),
     }
 }
 
@@ -1089,8 +1152,11 @@ fn gen_parchive(rng: &mut Rng) -> Option<Vec<u8>> {
 }
 
 fn gen_pindex(rng: &mut Rng) -> Option<Vec<u8>> {
-    let mut b = PatchIndexBuilder::new();
-    for _ in 0..rng.range(0, 10) {
+    let n = rng.range(0, 10);
+    // key sizes above 16 only without entries (`entry.build` slices the 16-byte keys by key_size)
+    let ks = if n == 0 && rng.chance(1, 3) { *rng.pick(&[17u8, 40, 255]) } else { *rng.pick(&[16u8, 16, 16, 9, 12, 1, 0]) };
+    let mut b = PatchIndexBuilder::new().key_size(ks);
+    for _ in 0..n {
         b.add_entry(PatchIndexEntry { source_ekey: k16(rng), source_size: rng.next() as u32, target_ekey: k16(rng), target_size: rng.next() as u32, encoded_size: rng.next() as u32, suffix_offset: rng.byte(), patch_ekey: k16(rng) });
     }
     b.build().ok()
@@ -1272,6 +1338,7 @@ fn main() {
             "install" => "inst",
             "download" => "dl",
             "zbsdiff" => "zbs",
+            "pindex" => "pidx",
             _ => continue,
         };
         cx.m_line(m, &b);
@@ -1290,7 +1357,7 @@ fn main() {
     let per_fixture = if th { 150 } else { 25 };
     for i in 0..cx.fixtures.len() {
         let (fmt, _, b) = cx.fixtures[i].clone();
-        if matches!(fmt.as_str(), "install" | "download" | "zbsdiff") {
+        if matches!(fmt.as_str(), "install" | "download" | "zbsdiff" | "pindex") {
             continue;
         }
         // big binary fixtures cost a few ms per round trip
@@ -1353,6 +1420,7 @@ fn main() {
                 "download" => Some("dl"),
                 "size" => Some("size"),
                 "zbsdiff" => Some("zbs"),
+                "pindex" => Some("pidx"),
                 _ => None,
             };
             // builder-form claim: the builder's output must be accepted and be a fixed point
@@ -1472,6 +1540,8 @@ fn main() {
 
     // (c) hand-framed headers for the modelled formats
     framed(&mut cx, &mut rng, th);
+    framed_pindex(&mut cx, &mut rng, th);
+    framed_tvfs_tables(&mut cx, &mut rng, th);
     cx.s.finish();
 }
 
@@ -1675,5 +1745,182 @@ fn framed(cx: &mut Ctx, rng: &mut Rng, th: bool) {
             d.truncate(l - rng.below(6.min(l as u64)) as usize);
         }
         cx.m_line("zbs", &d);
+    }
+}
+
+// ---- patch index: every header / block-table shape the parser distinguishes
+fn framed_pindex(cx: &mut Ctx, rng: &mut Rng, th: bool) {
+    let rounds = if th { 900 } else { 160 };
+    for _ in 0..rounds {
+        // extra header
+        let mut extra: Vec<u8> = vec![];
+        let xl: u16 = match rng.below(7) {
+            0 => 0,
+            1 => {
+                extra.push(0);
+                1
+            }
+            2 => {
+                let ks = rng.range(1, 17) as u8;
+                extra.push(ks);
+                extra.extend(rng.bytes(ks as usize));
+                if rng.chance(1, 4) { 1 } else { 1 + ks as u16 }
+            }
+            3 => {
+                let ks = rng.range(17, 40) as u8;
+                extra.push(ks);
+                extra.extend(rng.bytes(ks as usize));
+                let m = rng.below(4) as usize;
+                extra.extend(rng.bytes(m));
+                1 + ks as u16 + m as u16
+            }
+            4 => {
+                let ks = rng.below(17) as u8;
+                extra.push(ks);
+                extra.extend(rng.bytes(ks as usize));
+                let m = rng.range(1, 9) as usize;
+                extra.extend(rng.bytes(m));
+                1 + ks as u16 + m as u16
+            }
+            5 => {
+                // key size byte promises more than the input holds
+                extra.push(*rng.pick(&[30u8, 200, 255]));
+                extra.extend(rng.bytes(3));
+                rng.range(1, 300) as u16
+            }
+            _ => {
+                extra.push(0);
+                rng.range(2, 6) as u16 // extra data taken from what follows
+            }
+        };
+        // blocks
+        let nb = rng.below(5) as usize;
+        let mut descs: Vec<(u32, u32)> = vec![];
+        let mut body: Vec<u8> = vec![];
+        for _ in 0..nb {
+            let ty = *rng.pick(&[1u32, 2, 2, 8, 8, 5, 0, 6]);
+            let mut bd: Vec<u8> = vec![];
+            match ty {
+                2 => {
+                    let ks = *rng.pick(&[16u8, 16, 9, 1, 0, 17, 200]);
+                    let n = if ks > 16 { rng.below(2) as u32 } else { rng.below(4) as u32 };
+                    let declared = if rng.chance(1, 10) { n + 1 } else { n };
+                    bd.extend_from_slice(&declared.to_le_bytes());
+                    bd.push(ks);
+                    for _ in 0..n {
+                        bd.extend(rng.bytes(3 * ks as usize + 13));
+                    }
+                    if rng.chance(1, 5) {
+                        let k = rng.range(1, 6) as usize;
+                        bd.extend(rng.bytes(k));
+                    }
+                    if rng.chance(1, 12) {
+                        bd.truncate(rng.below(5) as usize);
+                    }
+                }
+                8 => {
+                    let ks = *rng.pick(&[16u8, 16, 9, 0, 17]);
+                    let n = if ks > 16 { rng.below(2) as u32 } else { rng.below(4) as u32 };
+                    let doff = *rng.pick(&[14u16, 14, 14, 0, 8, 20, 300]);
+                    bd.push(*rng.pick(&[3u8, 3, 3, 3, 2]));
+                    bd.push(ks);
+                    bd.extend_from_slice(&doff.to_le_bytes());
+                    bd.extend_from_slice(&n.to_le_bytes());
+                    bd.extend(rng.bytes(6));
+                    if doff > 14 && doff < 100 {
+                        bd.extend(rng.bytes(doff as usize - 14));
+                    }
+                    for _ in 0..n {
+                        bd.extend(rng.bytes(3 * ks as usize + 13));
+                    }
+                    if rng.chance(1, 12) {
+                        bd.truncate(rng.below(14) as usize);
+                    }
+                }
+                _ => {
+                    let k = rng.below(10) as usize;
+                    bd.extend(rng.bytes(k));
+                }
+            }
+            descs.push((ty, bd.len() as u32));
+            body.extend(bd);
+        }
+        let natural = 14 + extra.len() + 4 + 8 * nb;
+        let (hs, gap) = match rng.below(8) {
+            0 => (natural + 3, 3usize),                  // unused bytes between descriptors and blocks
+            1 if natural > 20 => (natural - 5, 0usize), // block data overlaps the descriptors
+            2 => (natural + 1000, 0usize),              // header_size beyond the input
+            _ => (natural, 0usize),
+        };
+        let total = natural + gap + body.len();
+        let ds = if rng.chance(1, 10) { total as u32 + 1 } else { total as u32 };
+        let mut d: Vec<u8> = vec![];
+        d.extend_from_slice(&(hs as u32).to_le_bytes());
+        d.extend_from_slice(&(if rng.chance(1, 14) { 2u32 } else { 1u32 }).to_le_bytes());
+        d.extend_from_slice(&ds.to_le_bytes());
+        d.extend_from_slice(&xl.to_le_bytes());
+        d.extend(&extra);
+        d.extend_from_slice(&((if rng.chance(1, 14) { nb + 1 } else { nb }) as u32).to_le_bytes());
+        for (t, sz) in &descs {
+            d.extend_from_slice(&t.to_le_bytes());
+            d.extend_from_slice(&(if rng.chance(1, 25) { sz + 1 } else { *sz }).to_le_bytes());
+        }
+        d.extend(rng.bytes(gap));
+        d.extend(&body);
+        cx.m_line("pidx", &d);
+        // a mutant with the data_size repaired, so that the mutation reaches the block parsers
+        let ms = gen_muts(rng, d.len(), false);
+        let mut x = apply_muts(&d, &ms);
+        if x.len() >= 12 && rng.chance(3, 4) {
+            let l = (x.len() as u32).to_le_bytes();
+            x[8..12].copy_from_slice(&l);
+        }
+        cx.m_line("pidx", &x);
+    }
+}
+
+// ---- TVFS: the VFS-table reader under every offset width, and the container-table slack
+fn framed_tvfs_tables(cx: &mut Ctx, rng: &mut Rng, th: bool) {
+    let rounds = if th { 1500 } else { 250 };
+    let sizes: &[u32] = &[0, 13, 247, 255, 256, 258, 65535, 65536, 0x00FF_FFFF, 0x0100_0000, u32::MAX];
+    for _ in 0..rounds {
+        let cft = *rng.pick(sizes);
+        let w_of = |c: u32| if c > 0x00FF_FFFF { 4usize } else if c > 0xFFFF { 3 } else if c > 0xFF { 2 } else { 1 };
+        // entries are written for the width of `wcft`: mostly the header's, sometimes the one of a
+        // table that lost its slack (the rebuild of finding tvfs-…-crosses-offset-width)
+        let wcft = if rng.chance(1, 3) { *rng.pick(sizes) } else { cft };
+        let w = w_of(wcft);
+        let mut d: Vec<u8> = vec![];
+        for _ in 0..rng.below(5) {
+            let c = match rng.below(10) {
+                0 => 0u8,
+                1 => *rng.pick(&[225u8, 254, 255]),
+                2 => 224,
+                _ => rng.range(1, 4) as u8,
+            };
+            d.push(c);
+            let n = if c >= 224 && rng.chance(2, 3) { rng.below(30) as usize } else { c as usize * (8 + w) };
+            d.extend(rng.bytes(n));
+        }
+        if rng.chance(1, 6) {
+            let l = d.len();
+            d.truncate(l - rng.below(4.min(l as u64 + 1)) as usize);
+        }
+        let req = format!("tv {cft} {}", hex(&d));
+        cx.run_req(&req);
+        cx.s.tally(&format!("tvfs-vfs-table:width-{}", w_of(cft)));
+    }
+    for _ in 0..rounds / 2 {
+        let fl = rng.below(2) as u32;
+        let es = if fl == 1 { 22 } else { 13 };
+        let n = match rng.below(4) {
+            0 => es * rng.below(30) as usize,
+            1 => es * rng.range(18, 22) as usize + rng.range(1, es as u64) as usize,
+            _ => rng.below(600) as usize,
+        };
+        let d = rng.bytes(n);
+        let req = format!("tc {fl} {}", hex(&d));
+        cx.run_req(&req);
+        cx.s.tally(if n % es == 0 { "tvfs-cft:no-slack" } else { "tvfs-cft:slack" });
     }
 }
